@@ -350,6 +350,9 @@ def run_case(rng, tier, case):
                        worst=float(np.max(np.abs(c_only - sh.c))) if c_only.shape == sh.c.shape and len(c_only) else None, n=[len(c_only), len(sh.c)])
         except Exception as e:
             case.check('purity.cost_vector_equals_problem_costs', False, history=hist, error='%s: %s' % (type(e).__name__, str(e)[:160]))
+    # user-supplied price data: unchanged by everything that was done with them
+    pr_now_changed = [k_ for k_, v_ in b.prices.items() if not np.array_equal(np.asarray(v_, float), np.asarray(spec['prices'][k_], float))]
+    case.check('purity.price_data_untouched', not pr_now_changed, history=hist, changed_keys=pr_now_changed[:4])
     case.check('purity.probe_does_not_raise', probe_exc is None, history=hist, error=None if probe_exc is None else '%s: %s' % (type(probe_exc).__name__, str(probe_exc)[:200]))
     if probe_exc is None:
         d = problem_diff(sh, sf, rtol=1e-12, compare_mapping=True)
